@@ -678,6 +678,17 @@ def ins_replayable(case):
 # public property of a second partition are the ones of a fresh partition.
 # ------------------------------------------------------------------------------------
 
+def smoothable(case):
+    """last dimension a categorical date with >= 2 valid waves, and a numeric measure in the response"""
+    try:
+        res = case["response"]["result"]
+        last = res["dimensions"][-1]["type"].get("categories") or []
+        return (sum(1 for c in last if c.get("date") and not c.get("missing")) >= 2
+                and any(m in res["measures"] for m in cu.NUMERIC_NAMES))
+    except Exception:
+        return False
+
+
 def late_read_fails(case, max_parts=2):
     import copy
     from harness.props import common_cases as cc
@@ -696,9 +707,19 @@ def late_read_fails(case, max_parts=2):
         for nm in names:
             r = impl.get(p, nm)
             fresh[nm] = (r[0], copy.deepcopy(r[1])) if r[0] == "ok" else r
-        population, late = cc.late_reads({"response": case["response"], "transforms": None,
+        # when the last dimension is a categorical date the second partition is built WITH a valid
+        # smoothing transform (it changes no unsmoothed output): the smoothed reads then really smooth,
+        # and must not write into the arrays the unsmoothed outputs are cut from (seeded change C01-7: a
+        # strand's smoothed_means overwrote the cube's cached means)
+        tr = None
+        last = case["response"]["result"]["dimensions"][-1]["type"].get("categories") or []
+        n_waves = sum(1 for c in last if c.get("date") and not c.get("missing"))
+        if n_waves >= 2:
+            key = "rows_dimension" if type(p).__name__ == "_Strand" else "columns_dimension"
+            tr = {key: {"smoother": {"function": "one_sided_moving_avg", "window": 2}}}
+        population, late = cc.late_reads({"response": case["response"], "transforms": tr,
                                           "k": 1000 * int(case.get("k", 0)) + pidx},
-                                         names, fresh, transforms=None, k=pidx)
+                                         names, fresh, transforms=tr, k=pidx)
         n += 1
         for nm, a, b, culprits in late[:1]:
             fails.append({"what": "%s depends on what was read before" % nm, "part": pidx, "fresh": a,
@@ -778,13 +799,37 @@ def run(tier, seed):
     # ---- read order: every third std / typed / tdorder case, up to two partitions ----
     n_late = 0
     for case in cases:
-        if case["k"] % 3 or family(case) in ("numarr", "nub") or not nontrivial(case):
+        if family(case) in ("numarr", "nub") or not nontrivial(case):
             continue
+        if case["k"] % 3 and not smoothable(case):
+            continue      # (every third case, and EVERY case a smoothing transform applies to)
+        if smoothable(case):
+            rep.dist("late-reads:with-smoothing-transform")
         fails, n = late_read_fails(case)
         n_late += n
         for f in fails:
             ctx = {"what": f.get("what"), "class": case_class(case), "leg": "late-reads"}
             rep.violation("impl-vs-property", dict(cu.replayable(case), late_reads=True), f, ctx)
+    # ---- a stream of its own: categorical-date strands / slices with mean (+ sum) measures, read late
+    # under a smoothing transform, twice with different read orders ----
+    from harness.props import common_cases as cc
+    rng_sm = random.Random(seed + 41)
+    n_sm = 24 if tier == "quick" else 300
+    for k in range(n_sm):
+        scase = cc.gen_slice_case(rng_sm, 100000 + k, p_strand=0.5, p_insert=0.0, measures=("count", "mean", "sum"),
+                                  numvar="x", valid_counts_p=0.3, kinds1d=["cat_date"],
+                                  kinds2d=[("cat", "cat_date"), ("mr", "cat_date"), ("cat_date", "cat_date")],
+                                  n_resp=(6, 30))
+        scase = cc.replayable(scase)
+        for extra in (0, 500000):
+            fails, n = late_read_fails(dict(scase, k=scase["k"] + extra))
+            n_late += n
+            for f in fails:
+                rep.violation("impl-vs-property",
+                              dict(scase, k=scase["k"] + extra, late_reads=True, smoothing_stream=True), f,
+                              {"what": f.get("what"), "leg": "late-reads", "class": "smoothing-stream"})
+        rep.count_case(dict(scase, smoothing_stream=True), True)
+        rep.dist("late-reads:smoothing-stream")
     rep.cov["late_read_partitions"] = n_late
     rep.cov["rule"] = (
         "cases from random.Random(seed): surveys of 0..30 respondents (dyadic weights incl. 0, or "
@@ -834,6 +879,13 @@ def replay(path):
     if case.get("pass_insertions"):
         res, _n, _s = run_ins_cases([case], tag="replay")
         fails = [f for _c, fs in res for f in fs]
+        for f in fails:
+            print("REPLAY still fails:", json.dumps(core.jsonable(f))[:600])
+        if not fails:
+            print("REPLAY: no longer fails")
+        return 1 if fails else 0
+    if case.get("smoothing_stream"):
+        fails, _n = late_read_fails(case)
         for f in fails:
             print("REPLAY still fails:", json.dumps(core.jsonable(f))[:600])
         if not fails:
